@@ -397,6 +397,21 @@ func main() {
 		fmt.Fprintf(&b, "\n  (%s, %s, %s, %s)", q(c.caller), q(c.callerRecv), q(c.method), q(c.on))
 	}
 	b.WriteString("]\n\n")
+	// package-level variables: every one is state that outlives a call
+	b.WriteString("/-- Every package-level variable of the library (name, type): the only places where state could\n")
+	b.WriteString("outlive a call or be shared between goroutines without passing through an argument. -/\n")
+	b.WriteString("def packageVars : List (String × String) := [")
+	first := true
+	for _, name := range lib.pkg.Scope().Names() {
+		if v, ok := lib.pkg.Scope().Lookup(name).(*types.Var); ok {
+			if !first {
+				b.WriteString(",")
+			}
+			first = false
+			fmt.Fprintf(&b, "\n  (%s, %s)", q(name), q(types.TypeString(v.Type(), func(p *types.Package) string { return p.Name() })))
+		}
+	}
+	b.WriteString("]\n\n")
 	b.WriteString("end Spg.Generated.Facts\n")
 	writeFile(out, "Facts.lean", b.String())
 
@@ -411,6 +426,7 @@ func main() {
 	varLits := map[string]ast.Expr{}
 	var flagDefs = map[string][]string{} // flagset var name -> lean triples
 	var cliOutputs []site
+	cliCalls := map[string]bool{} // package-qualified callees per function
 	for _, fn := range cli.names {
 		for _, d := range cli.files[fn].Decls {
 			if gd, ok := d.(*ast.GenDecl); ok && gd.Tok == token.VAR {
@@ -428,6 +444,9 @@ func main() {
 					if call, ok := n.(*ast.CallExpr); ok {
 						var p, e, s []site
 						cli.classifyCall(fn, funcName(fd), call, &cliOutputs, &p, &e, &s)
+						if c := cli.calleeName(call); strings.Contains(c, "/") || (strings.Contains(c, ".") && !strings.Contains(c, " ") && !strings.HasPrefix(c, "builtin.")) {
+							cliCalls[funcName(fd)+" -> "+c] = true
+						}
 					}
 					return true
 				})
@@ -590,6 +609,13 @@ func main() {
 		b.WriteString("\n  " + s.lean())
 	}
 	b.WriteString("]\n\n")
+	var cc []string
+	for k := range cliCalls {
+		cc = append(cc, k)
+	}
+	sort.Strings(cc)
+	b.WriteString("/-- Every call from an opgen function into another package or a method (caller -> callee). -/\n")
+	fmt.Fprintf(&b, "def cliCalls : List String := %s\n\n", qlist(cc))
 	b.WriteString("end Spg.Generated\n")
 	writeFile(out, "Cli.lean", b.String())
 }
